@@ -114,6 +114,73 @@ def _run_concrete(times, start, nd, img_dt, flt_dt, photon3d, writes, debug, inh
     return dt, snaps
 
 
+def _debug_records(times, start, nd, img_dt, flt_dt):
+    """Debug clause, per model and per step: a three-model pipeline (one model writes photons only, one writes the other buckets, one
+    writes nothing); every bucket a model changed is recorded under it, and nothing else is - except, for the first model of a step, what
+    the reset at the beginning of the step changed."""
+    import pyxel
+    from pyxel.exposure import Exposure, Readout
+    from pyxel.pipelines import DetectionPipeline, ModelFunction
+
+    BUCKETS = ("photon", "charge", "pixel", "signal", "image")
+
+    def snap(d):
+        out = {}
+        for b in BUCKETS:
+            a = d.charge.array if b == "charge" else getattr(d, b)._array
+            out[b] = None if a is None else np.asarray(a, dtype=float).copy()
+        return out
+
+    def differs(x, y):
+        if x is None or y is None:
+            return not (x is None and y is None)
+        return x.shape != y.shape or not np.allclose(x, y)
+
+    calls = []
+
+    def hook(d, tag, kwargs, rec):
+        i = d.pipeline_count
+        before = snap(d)
+        if tag == "pc":
+            d.photon.array = (np.arange(6, dtype=float).reshape(SHAPE) * (i + 2)).astype(flt_dt)
+        elif tag == "write":
+            d.charge.add_charge_array(np.full(SHAPE, 3.0 * (i + 1)))
+            if i % 2 == 0:
+                d.pixel.array = d.pixel.array + 1.0 + i  # odd steps leave the pixel bucket alone
+            d.signal.array = np.full(SHAPE, 0.5 * (i + 1)).astype(flt_dt)
+            d.image.array = (np.arange(6).reshape(SHAPE) + i).astype(img_dt)
+        calls.append((i, tag, before, snap(d)))
+
+    vxprobes.reset(hook)
+    try:
+        pipe = DetectionPipeline(photon_collection=[ModelFunction(func="vxprobes.probe", name="pc", arguments={"tag": "pc"})],
+                                 charge_collection=[ModelFunction(func="vxprobes.probe_a", name="write", arguments={"tag": "write"})],
+                                 data_processing=[ModelFunction(func="vxprobes.probe_b", name="idle", arguments={"tag": "idle"})])
+        dt = pyxel.run_mode(mode=Exposure(readout=Readout(times=times, start_time=start, non_destructive=nd)), detector=make_ccd(*SHAPE), pipeline=pipe,
+                            debug=True, with_inherited_coords=True)
+    finally:
+        vxprobes.reset(None)
+    groups = {"pc": "photon_collection", "write": "charge_collection", "idle": "data_processing"}
+    problems = {}
+    prev_end = None
+    for k, (i, tag, before, after) in enumerate(calls):
+        try:
+            node = dt[f"/intermediate/time_idx_{i}/{groups[tag]}/{tag}"]
+            recorded = {str(v) for v in node.data_vars}
+        except KeyError:
+            problems[f"step{i}/{tag}"] = "no node"
+            continue
+        changed = {b for b in BUCKETS if differs(before[b], after[b])}
+        first_of_step = tag == "pc"
+        by_reset = {b for b in BUCKETS if first_of_step and (differs(prev_end[b], before[b]) if prev_end is not None else before[b] is not None)} if first_of_step else set()
+        missing, extra = changed - recorded, recorded - changed - by_reset
+        if missing or extra:
+            problems[f"step{i}/{tag}"] = {"changed_by_model": sorted(changed), "recorded": sorted(recorded), "changed_by_reset": sorted(by_reset)}
+        if tag == "idle":
+            prev_end = after
+    return problems
+
+
 def _compare(dt, snaps, times, start, img_dt, inherited, photon3d):
     bad = {}
     node = dt["/bucket"] if inherited else dt
@@ -175,6 +242,9 @@ def _check_all(times, start, nd, img_dt, flt_dt, photon3d, writes, debug):
                 res["debug"]["changed_bucket_not_recorded"] = sorted(first.data_vars)
         except KeyError as e:
             res["debug"]["missing_node"] = str(e)
+        rec = _debug_records(times, start, nd, img_dt, flt_dt)
+        if rec:
+            res["debug"]["per_model_records"] = rec
     if "scene" not in dt_h.children or "data" not in dt_h.children:
         res["layouts"]["scene_or_data_missing"] = sorted(dt_h.children)
     return res
